@@ -89,13 +89,47 @@ func rulesC14(c *Ctx) {
 	c.c14Keys()
 }
 
+// fieldsOfWith gives the field values of a struct built by a composite literal / field stores. When the
+// value is a merge of several such builds (a field set on one branch only) each field is the merge of
+// its values, a field that a branch leaves unset contributing zero:unset.
 func fieldsOfWith(e *Ex) map[string]*Ex {
 	out := map[string]*Ex{}
-	if e == nil || e.K != "with" {
+	if e == nil {
+		return out
+	}
+	if e.K == "phi" {
+		var maps []map[string]*Ex
+		for _, a := range e.Args {
+			if a.K != "with" {
+				return out
+			}
+			maps = append(maps, fieldsOfWith(a))
+		}
+		keys := map[string]bool{}
+		for _, m := range maps {
+			for k := range m {
+				keys[k] = true
+			}
+		}
+		for k := range keys {
+			var alts []*Ex
+			for _, m := range maps {
+				if v, ok := m[k]; ok {
+					alts = append(alts, v)
+				} else {
+					alts = append(alts, mk("zero", "unset"))
+				}
+			}
+			out[k] = mkPhi(alts)
+		}
+		return out
+	}
+	if e.K != "with" {
 		return out
 	}
 	for _, s := range e.Args[1:] {
 		if s.K == "set" {
+			// a later store to the same field replaces an earlier one on that path
 			out[s.S] = s.Args[0]
 		}
 	}
